@@ -87,7 +87,7 @@ Definition starting_with (bs : list binding) (ks : list Z) : list binding :=
 
 (* Binding(keys=b.keys, handler=b.handler, filter=self.filter & b.filter, eager=b.eager, ...) *)
 Definition cond_binding (f : fexpr) (b : binding) : binding :=
-  mkbinding (bkeys b) (FAnd f (bfilter b)) (beager b) (bglobal b) (bhandler b) (bacts b).
+  mkbinding (bkeys b) (FAnd f (bfilter b)) (beager b) (bglobal b) (bhandler b) (bacts b) (bmacro b) (bsave b).
 
 Definition dyn_child (cands : list nat) (sel : option nat) : option nat :=
   match sel with Some k => nth_error cands k | None => None end.
@@ -208,15 +208,35 @@ Fixpoint cls (f : fexpr) : fcls :=
                end
   end.
 
-(* add: `if isinstance(filter, Never): (nothing)` else append + _clear_cache *)
-Definition kb_add (s : store) (k : nat) (b : binding) : store :=
+(* self.bindings.append(...); self._clear_cache() *)
+Definition kb_append (s : store) (k : nat) (b : binding) : store :=
   match nth_error s k with
-  | Some (OKB bs v c1 c2) =>
-      match cls (bfilter b) with
-      | CNever => s
-      | _ => set_nth s k (OKB (bs ++ [b]) (v + 1) [] [])
-      end
+  | Some (OKB bs v c1 c2) => set_nth s k (OKB (bs ++ [b]) (v + 1) [] [])
   | _ => s
+  end.
+
+(* add( *keys, filter=.., eager=.., is_global=.., save_before=.., record_in_macro=..)(function):
+   `if isinstance(filter, Never): (nothing)` else append + _clear_cache *)
+Definition kb_add (s : store) (k : nat) (b : binding) : store :=
+  match cls (bfilter b) with
+  | CNever => s
+  | _ => kb_append s k b
+  end.
+
+(* add( *keys, filter=f2, eager=e2, is_global=g2)(func) where func is a Binding object made by
+   key_binding(filter=f1, eager=e1, is_global=g1, save_before=.., record_in_macro=..)(handler):
+     Binding(keys, func.handler, filter=func.filter & to_filter(filter), eager=to_filter(eager) | func.eager,
+             is_global=to_filter(is_global) | func.is_global, save_before=func.save_before,
+             record_in_macro=func.record_in_macro)
+   [pre] carries what the Binding object holds (its keys are unused), [arg] what add() is given. *)
+Definition compose_binding (pre arg : binding) : binding :=
+  mkbinding (bkeys arg) (FAnd (bfilter pre) (bfilter arg)) (FOr (beager arg) (beager pre))
+            (bglobal arg || bglobal pre) (bhandler pre) (bacts pre) (bmacro pre) (bsave pre).
+
+Definition kb_addb (s : store) (k : nat) (pre arg : binding) : store :=
+  match cls (bfilter arg) with       (* the Never test looks at add()'s own filter argument *)
+  | CNever => s
+  | _ => kb_append s k (compose_binding pre arg)
   end.
 
 (*  for b in self.bindings: if <match>: self.bindings.remove(b); found = True
@@ -281,6 +301,7 @@ Definition denot (s : store) (i : nat) : list binding := snd (nth i (summ s) sdf
 (* ------------------------------------------------------------- wire format *)
 Inductive rop : Type :=
 | RAdd (k : nat) (b : binding)
+| RAddB (k : nat) (pre arg : binding)      (* add a pre-built Binding object *)
 | RRemoveKeys (k : nat) (ks : list Z)
 | RRemoveHandler (k : nat) (h : Z)
 | RSetDyn (d : nat) (sel : option nat)
@@ -316,6 +337,11 @@ Definition dec_rop (s : sx) : option rop :=
   | L [A 4; i; ks] => match as_nat i, as_str ks with Some i', Some ks' => Some (RLookup true i' ks') | _, _ => None end
   | L [A 5; i; ks] => match as_nat i, as_str ks with Some i', Some ks' => Some (RLookup false i' ks') | _, _ => None end
   | L [A 6; i] => match as_nat i with Some i' => Some (RBindings i') | None => None end
+  | L [A 7; k; pre; arg] =>
+      match as_nat k, dec_binding pre, dec_binding arg with
+      | Some k', Some pre', Some arg' => Some (RAddB k' pre' arg')
+      | _, _, _ => None
+      end
   | _ => None
   end.
 
@@ -337,7 +363,7 @@ Definition enc_binding (nc : nat) (b : binding) : sx :=
   L [sx_str (bkeys b); A (bhandler b);
      L (map (fun e => sx_bool (feval e (bfilter b))) (all_envs nc));
      L (map (fun e => sx_bool (feval e (beager b))) (all_envs nc));
-     sx_bool (bglobal b)].
+     sx_bool (bglobal b); sx_bool (bmacro b); A (bsave b)].
 
 Definition is_kb (s : store) (k : nat) : bool :=
   match nth_error s k with Some (OKB _ _ _ _) => true | _ => false end.
@@ -351,6 +377,7 @@ Fixpoint run_rops (nc : nat) (s : store) (ops : list rop) : list sx :=
   | o :: r =>
       match o with
       | RAdd k b => if is_kb s k then L [A 0] :: run_rops nc (kb_add s k b) r else [L [A (-1)]]
+      | RAddB k pre arg => if is_kb s k then L [A 0] :: run_rops nc (kb_addb s k pre arg) r else [L [A (-1)]]
       | RRemoveKeys k ks =>
           if is_kb s k then let '(s', st) := kb_remove s k false 0 ks in L [A st] :: run_rops nc s' r
           else [L [A (-1)]]
